@@ -39,6 +39,7 @@ type readRec struct {
 
 type monitor struct {
 	c           *cluster
+	belowSnap   string // pending: a Truncate went below the follower's snapshot prefix (detail)
 	acked       []ackedWrite
 	blStarted   map[int64]int
 	leaders     map[int64]int
@@ -143,9 +144,45 @@ func (m *monitor) onElect(el *election, all []int) {
 	m.removedLogs[el.term] = rl
 }
 
+// leaderOf: the node that led term t (or that was running BecomeLeader for it when it never finished).
+func (m *monitor) leaderOf(t int64) int {
+	if n, ok := m.leaders[t]; ok {
+		return n
+	}
+	return m.blStarted[t]
+}
+
+// statusOf reads the status of a node that was given BecomeLeader(term) earlier (from the node itself when it can answer).
+func (m *monitor) statusOf(id int, term int64) string {
+	c := m.c
+	n := c.node(id)
+	if n == nil {
+		return ""
+	}
+	c.mu.Lock()
+	up, busy := n.up, n.asyncRPC > 0
+	c.mu.Unlock()
+	if !up {
+		return fmt.Sprintf("; node %d is down now", id)
+	}
+	if busy {
+		return ""
+	}
+	var res *proto.GetStatusResponse
+	var err error
+	c.guard("getstatus", func() { res, err = n.rpcGetStatus(&proto.GetStatusRequest{Shard: shardId}) }, func() { err = errUnavailable })
+	if err != nil || res == nil {
+		return ""
+	}
+	if res.Status == proto.ServingStatus_LEADER && res.Term == term {
+		return fmt.Sprintf("; node %d answers GetStatus with LEADER, term %d: it was never fenced (it refuses a NewTerm of its own term) and goes on serving reads and writes next to the new leader", id, term)
+	}
+	return fmt.Sprintf("; node %d answers GetStatus with %v, term %d", id, res.Status, res.Term)
+}
+
 func (m *monitor) onBecomeLeaderStart(call *asyncCall) {
 	if prev, ok := m.blStarted[call.term]; ok && prev != call.node {
-		m.c.violate("election:two-leaders-one-term", fmt.Sprintf("nodes %d and %d both ran BecomeLeader for term %d", prev, call.node, call.term))
+		m.c.violate("election:two-leaders-one-term", fmt.Sprintf("nodes %d and %d both ran BecomeLeader for term %d%s", prev, call.node, call.term, m.statusOf(prev, call.term)))
 	}
 	m.blStarted[call.term] = call.node
 	m.termLog[call.term] = m.c.shadowLog(call.node)
@@ -184,7 +221,7 @@ func (m *monitor) onRolledBack(l, f int, term int64, before, after []entry) {
 			if e.term < t {
 				m.c.violate("figure8:old-term-entry-committed-by-count-then-overwritten", fmt.Sprintf(
 					"entry %s (written in term %d) was counted as committed at offset %d by leader %d of term %d (no entry of term %d covered it) and served; leader %d of term %d (head of a higher term) truncated it off follower %d",
-					e.tok(), e.term, i, m.leaders[t], t, t, l, term, f))
+					e.tok(), e.term, i, m.leaderOf(t), t, t, l, term, f))
 			} else {
 				sig := "commit:committed-entry-lost"
 				detail := fmt.Sprintf("offset %d (entry %s) was committed by the leader of term %d; leader %d of term %d truncated it off follower %d", i, e.tok(), t, l, term, f)
@@ -293,6 +330,20 @@ func (m *monitor) onTruncate(call *asyncCall, l, f int, req *proto.TruncateReque
 	if m.c.tainted != "" && strings.HasPrefix(m.c.tainted, "truncate:snapshot-installed-leader") {
 		return
 	}
+	m.c.mu.Lock()
+	ffirst := m.c.node(f).walFirst
+	m.c.mu.Unlock()
+	if req.HeadEntryId.Offset+1 < ffirst {
+		// The follower holds offsets below ffirst only as an installed snapshot (its database; a snapshot holds committed
+		// entries only) and is asked to roll back into it: the WAL is emptied, the snapshot stays.  Entries of a committed
+		// prefix are being rolled back here, which the monitors of committed data judge (onRolledBack, acked writes);
+		// the model's follower has a log without a snapshot part: no comparison from here on.
+		m.c.stats["model-gap:truncate-below-follower-snapshot-prefix"]++
+		m.c.skipModel("a Truncate below the prefix that the follower holds as an installed snapshot (the snapshot stays; the model's follower truncates its whole log)")
+		m.belowSnap = fmt.Sprintf("term %d: leader %d (log %s) sent Truncate(%d,%d) to follower %d, which holds the offsets below %d only as an installed snapshot (committed entries, in its database): its WAL is emptied, the snapshot's content stays (%s) and is never rolled back, the entries the leader sends for those offsets are never applied on it",
+			req.Term, l, logTok(ll), req.HeadEntryId.Term, req.HeadEntryId.Offset, f, ffirst, logTok(fl))
+		return
+	}
 	// the hypothesis of the proved theorem: after its single Truncate round the follower's head is an entry the
 	// leader would accept without truncating again
 	if call != nil {
@@ -314,6 +365,31 @@ func (m *monitor) onTruncate(call *asyncCall, l, f int, req *proto.TruncateReque
 		m.c.violate("truncate:follower-keeps-entries-the-leader-lacks", fmt.Sprintf(
 			"term %d: leader %d (log %s) truncated follower %d to entry id (%d,%d); the follower kept %s, which differs from the leader's log at offset %d, and the cursor starts at offset %d",
 			req.Term, l, logTok(ll), f, req.HeadEntryId.Term, req.HeadEntryId.Offset, logTok(fl), i, res.HeadEntryId.Offset+1))
+	}
+}
+
+// afterTruncate (after onTruncate and onRolledBack): a follower was asked to roll back into its snapshot prefix.  A
+// snapshot holds committed entries only, so this happens only after committed entries were lost; when that loss has been
+// judged (disk loss, figure 8, another root cause) the state of this follower is its consequence and the rest of the trace
+// is not judged; otherwise it is reported.
+func (m *monitor) afterTruncate() {
+	if m.belowSnap == "" {
+		return
+	}
+	detail := m.belowSnap
+	m.belowSnap = ""
+	c := m.c
+	violMu.Lock()
+	judged := c.tainted != "" || c.figure8 || c.diskSoft
+	if judged {
+		c.secondary = append(c.secondary, "truncate:follower-snapshot-prefix-rolled-back")
+		if c.tainted == "" {
+			c.tainted = "consequence:truncate-below-follower-snapshot-prefix"
+		}
+	}
+	violMu.Unlock()
+	if !judged {
+		c.violate("truncate:follower-snapshot-prefix-rolled-back", detail)
 	}
 }
 
@@ -574,7 +650,7 @@ func (m *monitor) onLeader(n int, term int64) {
 			if e.term < t {
 				c.violate("figure8:old-term-entry-committed-by-count-then-overwritten", fmt.Sprintf(
 					"entry %s (written in term %d) was counted as committed at offset %d by leader %d of term %d (no entry of term %d covered it), that leader served it; leader %d of term %d has log %s: the entry is gone",
-					e.tok(), e.term, i, m.leaders[t], t, t, n, term, logTok(lg)))
+					e.tok(), e.term, i, m.leaderOf(t), t, t, n, term, logTok(lg)))
 			} else {
 				sig := "commit:committed-entry-lost"
 				detail := fmt.Sprintf("offset %d (entry %s) was committed by the leader of term %d; leader %d of term %d has log %s", i, e.tok(), t, n, term, logTok(lg))
